@@ -83,17 +83,6 @@ theorem rexec_ofStmt (fuel : Nat) (s : Stmt) : rexec fuel (ofStmt s) = exec s :=
   | ite c t f iht ihf => funext σ; simp only [ofStmt, rexec, exec, iht, ihf]
   | loop v lo hi st b ih => funext σ; simp only [ofStmt, rexec, exec, ih]
 
-/-- variables a statement may write -/
-def rwvars : RStmt → List Nat
-  | .skip => []
-  | .seq a b => rwvars a ++ rwvars b
-  | .assign x _ => [x]
-  | .store1 a _ _ => [a]
-  | .store2 a _ _ _ => [a]
-  | .ite _ t f => rwvars t ++ rwvars f
-  | .loop v _ _ _ b => v :: rwvars b
-  | .whileDo _ b => rwvars b
-
 theorem whileN_invariant (P : Store → Prop) (c : Expr) (f : Store → Store)
     (hf : ∀ σ, P σ → P (f σ)) : ∀ n σ, P σ → P (whileN c f n σ) := by
   intro n
@@ -240,48 +229,100 @@ theorem KOK.mono {A0 : Loc → Prop} {K : List Nat} {evs evs' : List Ev} (h : KO
     (hs : ∀ e ∈ evs', e ∈ evs) : KOK A0 K evs' :=
   fun e he => h e (hs e he)
 
-theorem okEv_read {A0 : Loc → Prop} {K D : List Nat} {ev : Ev} (hw : ev.write = false)
-    (hok : okEv K D ev = true) (hk : ∀ l, ev.var ∈ K → cellsOf ev l → A0 l) (l : Loc)
-    (hc : cellsOf ev l) : Adef A0 D l := by
-  simp only [okEv, hw, Bool.false_or, Bool.or_eq_true, List.contains_iff_mem, Bool.and_eq_true,
-    Bool.not_eq_true'] at hok
-  rcases hok with hok | ⟨ha, hd⟩
-  · exact Or.inl (hk l hok hc)
-  · right
-    rcases hc with ⟨h1, h2⟩
-    rcases h2 with h2 | h2
-    · rw [ha] at h2; exact absurd h2 (by decide)
-    · exact ⟨h1 ▸ hd, h2⟩
+/-! ### covered array elements -/
 
-theorem eval_sim {A0 : Loc → Prop} {K D : List Nat} {e : Expr} {σ τ : Store}
-    (hk : KOK A0 K (eacc e)) (hok : okE K D e = true) (h : ∀ l, Adef A0 D l → σ l = τ l) :
+/-- both runs agree on the index value and on the element, for every covered element -/
+def DAinv (DA : List (Nat × Expr)) (σ τ : Store) : Prop :=
+  ∀ p ∈ DA, eval p.2 σ = eval p.2 τ ∧ σ (p.1, eval p.2 σ, 0) = τ (p.1, eval p.2 σ, 0)
+
+theorem DAinv.mono {DA DA' : List (Nat × Expr)} {σ τ : Store} (h : DAinv DA σ τ)
+    (hs : ∀ p ∈ DA', p ∈ DA) : DAinv DA' σ τ := fun p hp => h p (hs p hp)
+
+theorem eval_set_irrel {e : Expr} {x : Nat} (h : mentions e x = false) (σ : Store) (i j v : Int) :
+    eval e (σ.set (x, i, j) v) = eval e σ := by
+  induction e with
+  | lit n => rfl
+  | var y =>
+    simp only [mentions, beq_eq_false_iff_ne, ne_eq] at h
+    simp only [eval, Store.set_apply]
+    rw [if_neg]
+    intro hc; exact h (congrArg Prod.fst hc)
+  | idx1 a k ih =>
+    simp only [mentions, Bool.or_eq_false_iff, beq_eq_false_iff_ne, ne_eq] at h
+    simp only [eval, ih h.2, Store.set_apply]
+    rw [if_neg]
+    intro hc; exact h.1 (congrArg Prod.fst hc)
+  | idx2 a k l ihk ihl =>
+    simp only [mentions, Bool.or_eq_false_iff, beq_eq_false_iff_ne, ne_eq] at h
+    simp only [eval, ihk h.1.2, ihl h.2, Store.set_apply]
+    rw [if_neg]
+    intro hc; exact h.1.1 (congrArg Prod.fst hc)
+  | un op e ih =>
+    simp only [mentions] at h
+    simp only [eval, ih h]
+  | bin op a b iha ihb =>
+    simp only [mentions, Bool.or_eq_false_iff] at h
+    simp only [eval, iha h.1, ihb h.2]
+
+theorem mem_killA {DA : List (Nat × Expr)} {W : List Nat} {p : Nat × Expr} :
+    p ∈ killA DA W ↔ p ∈ DA ∧ ∀ w ∈ W, mentions p.2 w = false := by
+  simp only [killA, List.mem_filter, Bool.not_eq_true', List.any_eq_false]
+  constructor
+  · rintro ⟨h1, h2⟩; exact ⟨h1, fun w hw => by simpa using h2 w hw⟩
+  · rintro ⟨h1, h2⟩; exact ⟨h1, fun w hw => by simp [h2 w hw]⟩
+
+/-- writing the same value to the same cell of `x` in both runs keeps the covered elements
+whose index does not depend on `x` -/
+theorem DAinv.set {DA : List (Nat × Expr)} {σ τ : Store} (h : DAinv DA σ τ) (x : Nat) (i j v : Int)
+    (hx : ∀ p ∈ DA, mentions p.2 x = false) :
+    DAinv DA (σ.set (x, i, j) v) (τ.set (x, i, j) v) := by
+  intro p hp
+  obtain ⟨h1, h2⟩ := h p hp
+  rw [eval_set_irrel (hx p hp), eval_set_irrel (hx p hp)]
+  refine ⟨h1, ?_⟩
+  simp only [Store.set_apply]
+  split
+  · rfl
+  · exact h2
+
+/-- simulation state: `Sim` on the defined scalars plus the covered-element invariant -/
+structure SimS (A0 : Loc → Prop) (S : Defs) (σ0 τ0 σ τ : Store) : Prop where
+  sim : Sim (Adef A0 S.1) σ0 τ0 σ τ
+  da : DAinv S.2 σ τ
+
+theorem eval_simX {A0 : Loc → Prop} {K : List Nat} {S : Defs} {e : Expr} {σ0 τ0 σ τ : Store}
+    (hk : KOK A0 K (eacc e)) (hok : okX K S e = true) (h : SimS A0 S σ0 τ0 σ τ) :
     eval e σ = eval e τ := by
   induction e with
   | lit n => rfl
   | var x =>
-    simp only [okE, eacc, List.all_cons, List.all_nil, Bool.and_true] at hok
-    exact h (x, 0, 0) (okEv_read rfl hok (fun l hx hc => hk _ (by simp [eacc]) rfl hx l hc) _
-      ⟨rfl, Or.inr ⟨rfl, rfl⟩⟩)
+    simp only [okX, Bool.or_eq_true, List.contains_iff_mem] at hok
+    apply h.sim.agree
+    rcases hok with hok | hok
+    · exact Or.inl (hk ⟨x, false, false⟩ (by simp [eacc]) rfl hok _ ⟨rfl, Or.inr ⟨rfl, rfl⟩⟩)
+    · exact Or.inr ⟨hok, rfl, rfl⟩
   | idx1 a i ih =>
-    simp only [okE, eacc, List.all_append, List.all_cons, List.all_nil, Bool.and_true,
-      Bool.and_eq_true] at hok
+    simp only [okX, Bool.and_eq_true, Bool.or_eq_true, List.contains_iff_mem] at hok
     have hi := ih (hk.mono (fun e he => by simp [eacc, he])) hok.1
-    simp only [eval, hi]
-    exact h _ (okEv_read rfl hok.2 (fun l hx hc => hk _ (by simp [eacc]) rfl hx l hc) _
-      ⟨rfl, Or.inl rfl⟩)
-  | idx2 a i j ihi ihj =>
-    simp only [okE, eacc, List.all_append, List.all_cons, List.all_nil, Bool.and_true,
-      Bool.and_eq_true] at hok
-    have hi := ihi (hk.mono (fun e he => by simp [eacc, he])) hok.1
-    have hj := ihj (hk.mono (fun e he => by simp [eacc, he])) hok.2.1
-    simp only [eval, hi, hj]
-    exact h _ (okEv_read rfl hok.2.2 (fun l hx hc => hk _ (by simp [eacc]) rfl hx l hc) _
-      ⟨rfl, Or.inl rfl⟩)
-  | un op e ih =>
     simp only [eval]
-    rw [ih (hk.mono (fun e he => by simpa [eacc] using he)) (by simpa [okE, eacc] using hok)]
+    rcases hok.2 with hin | hin
+    · rw [hi]
+      exact h.sim.agree _ (Or.inl (hk ⟨a, false, true⟩ (by simp [eacc]) rfl hin _ ⟨rfl, Or.inl rfl⟩))
+    · have := (h.da (a, i) hin).2
+      rw [← hi]
+      exact this
+  | idx2 a i j ihi ihj =>
+    simp only [okX, Bool.and_eq_true, List.contains_iff_mem] at hok
+    have hi := ihi (hk.mono (fun e he => by simp [eacc, he])) hok.1.1
+    have hj := ihj (hk.mono (fun e he => by simp [eacc, he])) hok.1.2
+    simp only [eval, hi, hj]
+    exact h.sim.agree _ (Or.inl (hk ⟨a, false, true⟩ (by simp [eacc]) rfl hok.2 _ ⟨rfl, Or.inl rfl⟩))
+  | un op e ih =>
+    simp only [okX] at hok
+    simp only [eval]
+    rw [ih (hk.mono (fun e he => by simpa [eacc] using he)) hok]
   | bin op a b iha ihb =>
-    simp only [okE, eacc, List.all_append, Bool.and_eq_true] at hok
+    simp only [okX, Bool.and_eq_true] at hok
     simp only [eval]
     rw [iha (hk.mono (fun e he => by simp [eacc, he])) hok.1,
       ihb (hk.mono (fun e he => by simp [eacc, he])) hok.2]
@@ -302,6 +343,10 @@ theorem Adef_mono {A0 : Loc → Prop} {D D' : List Nat} (hs : ∀ x ∈ D, x ∈
   rcases h with h | ⟨h1, h2⟩
   · exact Or.inl h
   · exact Or.inr ⟨hs _ h1, h2⟩
+
+theorem SimS.weaken {A0 : Loc → Prop} {S S' : Defs} {σ0 τ0 σ τ : Store} (h : SimS A0 S σ0 τ0 σ τ)
+    (h1 : ∀ x ∈ S'.1, x ∈ S.1) (h2 : ∀ p ∈ S'.2, p ∈ S.2) : SimS A0 S' σ0 τ0 σ τ :=
+  ⟨h.sim.weaken (Adef_mono h1), h.da.mono h2⟩
 
 /-- two-run version of the iteration invariant -/
 theorem iters_sim (P : Store → Store → Prop) (f : Store → Store) (v : Nat) (lo step : Int)
@@ -326,181 +371,323 @@ theorem whileN_sim (P : Store → Store → Prop) (c : Expr) (f : Store → Stor
     · exact ih _ _ (hf σ τ h)
     · exact h
 
+/-- a scalar assignment / loop-variable update of `x` with the same value in both runs -/
+theorem SimS.setScalar {A0 : Loc → Prop} {S : Defs} {σ0 τ0 σ τ : Store} (h : SimS A0 S σ0 τ0 σ τ)
+    (x : Nat) (v : Int) {DA' : List (Nat × Expr)} (hsub : ∀ p ∈ DA', p ∈ S.2)
+    (hx : ∀ p ∈ DA', mentions p.2 x = false) :
+    SimS A0 (x :: S.1, DA') σ0 τ0 (σ.set (x, 0, 0) v) (τ.set (x, 0, 0) v) :=
+  ⟨(h.sim.set (x, 0, 0) v).weaken Adef_cons_of, (h.da.mono hsub).set x 0 0 v hx⟩
+
 theorem chk_sim {fuel : Nat} {A0 : Loc → Prop} {K : List Nat} {σ0 τ0 : Store} (s : RStmt) :
-    ∀ (D D' : List Nat) (σ τ : Store), chk K s D = some D' → KOK A0 K (sacc s) →
-      Sim (Adef A0 D) σ0 τ0 σ τ →
-      Sim (Adef A0 D') σ0 τ0 (rexec fuel s σ) (rexec fuel s τ) ∧ (∀ x ∈ D, x ∈ D') := by
+    ∀ (S S' : Defs) (σ τ : Store), chk K s S = some S' → KOK A0 K (sacc s) →
+      SimS A0 S σ0 τ0 σ τ →
+      SimS A0 S' σ0 τ0 (rexec fuel s σ) (rexec fuel s τ) ∧ (∀ x ∈ S.1, x ∈ S'.1) := by
   induction s with
   | skip =>
-    intro D D' σ τ hc _ h
+    intro S S' σ τ hc _ h
     simp only [chk, Option.some.injEq] at hc
     subst hc
     exact ⟨h, fun _ hx => hx⟩
   | seq a b iha ihb =>
-    intro D D' σ τ hc hk h
+    intro S S' σ τ hc hk h
     simp only [chk, Option.bind_eq_some_iff] at hc
-    obtain ⟨D1, h1, h2⟩ := hc
-    obtain ⟨s1, m1⟩ := iha D D1 σ τ h1 (hk.mono (fun e he => by simp [sacc, he])) h
-    obtain ⟨s2, m2⟩ := ihb D1 D' _ _ h2 (hk.mono (fun e he => by simp [sacc, he])) s1
+    obtain ⟨S1, h1, h2⟩ := hc
+    obtain ⟨s1, m1⟩ := iha S S1 σ τ h1 (hk.mono (fun e he => by simp [sacc, he])) h
+    obtain ⟨s2, m2⟩ := ihb S1 S' _ _ h2 (hk.mono (fun e he => by simp [sacc, he])) s1
     exact ⟨s2, fun x hx => m2 x (m1 x hx)⟩
   | assign x e =>
-    intro D D' σ τ hc hk h
+    intro S S' σ τ hc hk h
     simp only [chk] at hc
     split at hc
     · rename_i hok
       simp only [Option.some.injEq] at hc
       subst hc
-      have he := eval_sim (hk.mono (fun e he => by simp [sacc, he])) hok h.agree
+      have he := eval_simX (hk.mono (fun e he => by simp [sacc, he])) hok h
       simp only [rexec, he]
-      exact ⟨(h.set (x, 0, 0) (eval e τ)).weaken Adef_cons_of, fun y hy => List.mem_cons_of_mem _ hy⟩
+      refine ⟨h.setScalar x _ (fun p hp => (mem_killA.mp hp).1)
+        (fun p hp => (mem_killA.mp hp).2 x (by simp)), fun y hy => List.mem_cons_of_mem _ hy⟩
     · exact absurd hc (by simp)
   | store1 a i e =>
-    intro D D' σ τ hc hk h
+    intro S S' σ τ hc hk h
     simp only [chk] at hc
     split at hc
     · rename_i hok
       simp only [Bool.and_eq_true] at hok
       simp only [Option.some.injEq] at hc
       subst hc
-      have hi := eval_sim (hk.mono (fun e he => by simp [sacc, he])) hok.1 h.agree
-      have he := eval_sim (hk.mono (fun e he => by simp [sacc, he])) hok.2 h.agree
+      have hi := eval_simX (hk.mono (fun e he => by simp [sacc, he])) hok.1 h
+      have he := eval_simX (hk.mono (fun e he => by simp [sacc, he])) hok.2 h
       simp only [rexec, he, hi]
-      exact ⟨(h.set _ _).weaken (fun l hl => Or.inl hl), fun y hy => hy⟩
+      have hkill : DAinv (killA S.2 [a]) (σ.set (a, eval i τ, 0) (eval e τ)) (τ.set (a, eval i τ, 0) (eval e τ)) :=
+        (h.da.mono (fun p hp => (mem_killA.mp hp).1)).set a _ _ _
+          (fun p hp => (mem_killA.mp hp).2 a (by simp))
+      refine ⟨⟨(h.sim.set _ _).weaken (fun l hl => Or.inl hl), ?_⟩, fun y hy => hy⟩
+      split
+      · exact hkill
+      · rename_i hm
+        simp only [Bool.not_eq_true] at hm
+        intro p hp
+        rcases List.mem_cons.mp hp with rfl | hp
+        · simp only
+          rw [eval_set_irrel hm, eval_set_irrel hm]
+          refine ⟨hi, ?_⟩
+          simp only [Store.set_apply, hi]
+          simp
+        · exact hkill p hp
     · exact absurd hc (by simp)
   | store2 a i j e =>
-    intro D D' σ τ hc hk h
+    intro S S' σ τ hc hk h
     simp only [chk] at hc
     split at hc
     · rename_i hok
       simp only [Bool.and_eq_true] at hok
       simp only [Option.some.injEq] at hc
       subst hc
-      have hi := eval_sim (hk.mono (fun e he => by simp [sacc, he])) hok.1.1 h.agree
-      have hj := eval_sim (hk.mono (fun e he => by simp [sacc, he])) hok.1.2 h.agree
-      have he := eval_sim (hk.mono (fun e he => by simp [sacc, he])) hok.2 h.agree
+      have hi := eval_simX (hk.mono (fun e he => by simp [sacc, he])) hok.1.1 h
+      have hj := eval_simX (hk.mono (fun e he => by simp [sacc, he])) hok.1.2 h
+      have he := eval_simX (hk.mono (fun e he => by simp [sacc, he])) hok.2 h
       simp only [rexec, he, hi, hj]
-      exact ⟨(h.set _ _).weaken (fun l hl => Or.inl hl), fun y hy => hy⟩
+      exact ⟨⟨(h.sim.set _ _).weaken (fun l hl => Or.inl hl),
+        (h.da.mono (fun p hp => (mem_killA.mp hp).1)).set a _ _ _
+          (fun p hp => (mem_killA.mp hp).2 a (by simp))⟩, fun y hy => hy⟩
     · exact absurd hc (by simp)
   | ite c t f iht ihf =>
-    intro D D' σ τ hc hk h
+    intro S S' σ τ hc hk h
     simp only [chk] at hc
     split at hc
-    · rename_i hok
-      simp only [Bool.and_eq_true, Option.isSome_iff_exists] at hok
-      simp only [Option.some.injEq] at hc
-      subst hc
-      obtain ⟨⟨hcnd, ⟨Dt, ht⟩⟩, ⟨Df, hf⟩⟩ := hok
-      have hc' := eval_sim (hk.mono (fun e he => by simp [sacc, he])) hcnd h.agree
-      simp only [rexec, hc']
-      refine ⟨?_, fun y hy => hy⟩
-      split
-      · obtain ⟨s1, m1⟩ := iht D Dt σ τ ht (hk.mono (fun e he => by simp [sacc, he])) h
-        exact s1.weaken (Adef_mono m1)
-      · obtain ⟨s1, m1⟩ := ihf D Df σ τ hf (hk.mono (fun e he => by simp [sacc, he])) h
-        exact s1.weaken (Adef_mono m1)
+    · rename_i hcnd
+      split at hc
+      · rename_i St Sf ht hf
+        simp only [Option.some.injEq] at hc
+        subst hc
+        have hc' := eval_simX (hk.mono (fun e he => by simp [sacc, he])) hcnd h
+        obtain ⟨s1, m1⟩ := iht S St σ τ ht (hk.mono (fun e he => by simp [sacc, he])) h
+        obtain ⟨s2, m2⟩ := ihf S Sf σ τ hf (hk.mono (fun e he => by simp [sacc, he])) h
+        simp only [rexec, hc']
+        refine ⟨?_, fun y hy => List.mem_filter.mpr ⟨m1 y hy, by simpa using m2 y hy⟩⟩
+        split
+        · exact s1.weaken (fun x hx => (List.mem_filter.mp hx).1) (fun p hp => (List.mem_filter.mp hp).1)
+        · exact s2.weaken (fun x hx => by simpa using (List.mem_filter.mp hx).2)
+            (fun p hp => by simpa using (List.mem_filter.mp hp).2)
+      · exact absurd hc (by simp)
     · exact absurd hc (by simp)
   | loop v lo hi st b ih =>
-    intro D D' σ τ hc hk h
+    intro S S' σ τ hc hk h
     simp only [chk] at hc
     split at hc
     · rename_i hok
-      simp only [Bool.and_eq_true, Option.isSome_iff_exists] at hok
-      simp only [Option.some.injEq] at hc
-      subst hc
-      obtain ⟨⟨⟨hlo, hhi⟩, hst⟩, ⟨Db, hb⟩⟩ := hok
-      have e1 := eval_sim (hk.mono (fun e he => by simp [sacc, he])) hlo h.agree
-      have e2 := eval_sim (hk.mono (fun e he => by simp [sacc, he])) hhi h.agree
-      have e3 := eval_sim (hk.mono (fun e he => by simp [sacc, he])) hst h.agree
-      simp only [rexec, runIters_eq_iters, e1, e2, e3]
-      refine ⟨?_, fun y hy => List.mem_cons_of_mem _ hy⟩
-      have hbody : ∀ σ' τ' val, Sim (Adef A0 D) σ0 τ0 σ' τ' →
-          Sim (Adef A0 D) σ0 τ0 (rexec fuel b (σ'.set (v, 0, 0) val)) (rexec fuel b (τ'.set (v, 0, 0) val)) := by
-        intro σ' τ' val h'
-        obtain ⟨s1, m1⟩ := ih (v :: D) Db _ _ hb (hk.mono (fun e he => by simp [sacc, he]))
-          ((h'.set (v, 0, 0) val).weaken Adef_cons_of)
-        exact s1.weaken (Adef_mono (fun x hx => m1 x (List.mem_cons_of_mem _ hx)))
-      have := iters_sim (fun σ' τ' => Sim (Adef A0 D) σ0 τ0 σ' τ') (rexec fuel b) v (eval lo τ) (eval st τ)
-        hbody (trip (eval lo τ) (eval hi τ) (eval st τ)) 0 σ τ h
-      exact (this.set _ _).weaken Adef_cons_of
+      simp only [Bool.and_eq_true] at hok
+      split at hc
+      · rename_i Sb hb
+        split at hc
+        · rename_i hsub
+          simp only [Option.some.injEq] at hc
+          subst hc
+          obtain ⟨⟨hlo, hhi⟩, hst⟩ := hok
+          have e1 := eval_simX (hk.mono (fun e he => by simp [sacc, he])) hlo h
+          have e2 := eval_simX (hk.mono (fun e he => by simp [sacc, he])) hhi h
+          have e3 := eval_simX (hk.mono (fun e he => by simp [sacc, he])) hst h
+          simp only [rexec, runIters_eq_iters, e1, e2, e3]
+          refine ⟨?_, fun y hy => List.mem_cons_of_mem _ hy⟩
+          have hH : ∀ p ∈ killA S.2 (v :: rwvars b), mentions p.2 v = false :=
+            fun p hp => (mem_killA.mp hp).2 v (by simp)
+          have hbody : ∀ σ' τ' val, SimS A0 (S.1, killA S.2 (v :: rwvars b)) σ0 τ0 σ' τ' →
+              SimS A0 (S.1, killA S.2 (v :: rwvars b)) σ0 τ0
+                (rexec fuel b (σ'.set (v, 0, 0) val)) (rexec fuel b (τ'.set (v, 0, 0) val)) := by
+            intro σ' τ' val h'
+            obtain ⟨s1, m1⟩ := ih (v :: S.1, killA S.2 (v :: rwvars b)) Sb _ _ hb
+              (hk.mono (fun e he => by simp [sacc, he]))
+              (h'.setScalar v val (fun p hp => hp) hH)
+            exact s1.weaken (fun x hx => m1 x (List.mem_cons_of_mem _ hx))
+              (fun p hp => by
+                have := List.all_eq_true.mp hsub p hp
+                simpa using this)
+          have h0 : SimS A0 (S.1, killA S.2 (v :: rwvars b)) σ0 τ0 σ τ :=
+            h.weaken (fun x hx => hx) (fun p hp => (mem_killA.mp hp).1)
+          have := iters_sim (fun σ' τ' => SimS A0 (S.1, killA S.2 (v :: rwvars b)) σ0 τ0 σ' τ')
+            (rexec fuel b) v (eval lo τ) (eval st τ) hbody
+            (trip (eval lo τ) (eval hi τ) (eval st τ)) 0 σ τ h0
+          exact this.setScalar v _ (fun p hp => hp) hH
+        · exact absurd hc (by simp)
+      · exact absurd hc (by simp)
     · exact absurd hc (by simp)
   | whileDo c b ih =>
-    intro D D' σ τ hc hk h
+    intro S S' σ τ hc hk h
     simp only [chk] at hc
     split at hc
-    · rename_i hok
-      simp only [Bool.and_eq_true, Option.isSome_iff_exists] at hok
-      simp only [Option.some.injEq] at hc
-      subst hc
-      obtain ⟨hcnd, ⟨Db, hb⟩⟩ := hok
-      simp only [rexec]
-      refine ⟨?_, fun y hy => hy⟩
-      exact whileN_sim (fun σ' τ' => Sim (Adef A0 D) σ0 τ0 σ' τ') c (rexec fuel b)
-        (fun σ' τ' h' => eval_sim (hk.mono (fun e he => by simp [sacc, he])) hcnd h'.agree)
-        (fun σ' τ' h' => by
-          obtain ⟨s1, m1⟩ := ih D Db σ' τ' hb (hk.mono (fun e he => by simp [sacc, he])) h'
-          exact s1.weaken (Adef_mono m1))
-        fuel σ τ h
+    · rename_i hcnd
+      split at hc
+      · rename_i Sb hb
+        split at hc
+        · rename_i hsub
+          simp only [Option.some.injEq] at hc
+          subst hc
+          simp only [rexec]
+          refine ⟨?_, fun y hy => hy⟩
+          have h0 : SimS A0 (S.1, killA S.2 (rwvars b)) σ0 τ0 σ τ :=
+            h.weaken (fun x hx => hx) (fun p hp => (mem_killA.mp hp).1)
+          exact whileN_sim (fun σ' τ' => SimS A0 (S.1, killA S.2 (rwvars b)) σ0 τ0 σ' τ') c (rexec fuel b)
+            (fun σ' τ' h' => eval_simX (hk.mono (fun e he => by simp [sacc, he])) hcnd h')
+            (fun σ' τ' h' => by
+              obtain ⟨s1, m1⟩ := ih _ Sb σ' τ' hb (hk.mono (fun e he => by simp [sacc, he])) h'
+              exact s1.weaken (fun x hx => m1 x hx)
+                (fun p hp => by
+                  have := List.all_eq_true.mp hsub p hp
+                  simpa using this))
+            fuel σ τ h0
+        · exact absurd hc (by simp)
+      · exact absurd hc (by simp)
     · exact absurd hc (by simp)
 
-/-- `chk` succeeds (from any `D`) when every read is of a variable in `K` -/
-theorem okE_of_reads {K D : List Nat} {e : Expr} (h : ∀ ev ∈ eacc e, ev.var ∈ K) :
-    okE K D e = true := by
-  simp only [okE, List.all_eq_true]
-  intro ev hev
-  simp [okEv, h ev hev]
+/-! ### `chk` succeeds when every read is of a variable in `K` -/
+
+/-- covered elements whose index does not depend on anything `s` writes survive `s` -/
+theorem chk_survive {K : List Nat} (s : RStmt) :
+    ∀ (S S' : Defs), chk K s S = some S' → ∀ p ∈ S.2, (∀ w ∈ rwvars s, mentions p.2 w = false) →
+      p ∈ S'.2 := by
+  induction s with
+  | skip => intro S S' hc p hp _; simp only [chk, Option.some.injEq] at hc; subst hc; exact hp
+  | seq a b iha ihb =>
+    intro S S' hc p hp hw
+    simp only [chk, Option.bind_eq_some_iff] at hc
+    obtain ⟨S1, h1, h2⟩ := hc
+    exact ihb S1 S' h2 p (iha S S1 h1 p hp (fun w hw' => hw w (by simp [rwvars, hw'])))
+      (fun w hw' => hw w (by simp [rwvars, hw']))
+  | assign x e =>
+    intro S S' hc p hp hw
+    simp only [chk] at hc
+    split at hc
+    · simp only [Option.some.injEq] at hc; subst hc
+      exact mem_killA.mpr ⟨hp, fun w hw' => hw w (by simpa [rwvars] using hw')⟩
+    · exact absurd hc (by simp)
+  | store1 a i e =>
+    intro S S' hc p hp hw
+    simp only [chk] at hc
+    split at hc
+    · simp only [Option.some.injEq] at hc; subst hc
+      have : p ∈ killA S.2 [a] := mem_killA.mpr ⟨hp, fun w hw' => hw w (by simpa [rwvars] using hw')⟩
+      split
+      · exact this
+      · exact List.mem_cons_of_mem _ this
+    · exact absurd hc (by simp)
+  | store2 a i j e =>
+    intro S S' hc p hp hw
+    simp only [chk] at hc
+    split at hc
+    · simp only [Option.some.injEq] at hc; subst hc
+      exact mem_killA.mpr ⟨hp, fun w hw' => hw w (by simpa [rwvars] using hw')⟩
+    · exact absurd hc (by simp)
+  | ite c t f iht ihf =>
+    intro S S' hc p hp hw
+    simp only [chk] at hc
+    split at hc
+    · split at hc
+      · rename_i St Sf ht hf
+        simp only [Option.some.injEq] at hc; subst hc
+        have h1 := iht S St ht p hp (fun w hw' => hw w (by simp [rwvars, hw']))
+        have h2 := ihf S Sf hf p hp (fun w hw' => hw w (by simp [rwvars, hw']))
+        exact List.mem_filter.mpr ⟨h1, by simpa using h2⟩
+      · exact absurd hc (by simp)
+    · exact absurd hc (by simp)
+  | loop v lo hi st b ih =>
+    intro S S' hc p hp hw
+    simp only [chk] at hc
+    split at hc
+    · split at hc
+      · split at hc
+        · simp only [Option.some.injEq] at hc; subst hc
+          exact mem_killA.mpr ⟨hp, fun w hw' => hw w (by simpa [rwvars] using hw')⟩
+        · exact absurd hc (by simp)
+      · exact absurd hc (by simp)
+    · exact absurd hc (by simp)
+  | whileDo c b ih =>
+    intro S S' hc p hp hw
+    simp only [chk] at hc
+    split at hc
+    · split at hc
+      · split at hc
+        · simp only [Option.some.injEq] at hc; subst hc
+          exact mem_killA.mpr ⟨hp, fun w hw' => hw w (by simpa [rwvars] using hw')⟩
+        · exact absurd hc (by simp)
+      · exact absurd hc (by simp)
+    · exact absurd hc (by simp)
+
+theorem okX_of_reads {K : List Nat} {S : Defs} {e : Expr} (h : ∀ ev ∈ eacc e, ev.var ∈ K) :
+    okX K S e = true := by
+  induction e with
+  | lit n => rfl
+  | var x => simp [okX, h ⟨x, false, false⟩ (by simp [eacc])]
+  | idx1 a i ih =>
+    simp [okX, ih (fun ev he => h ev (by simp [eacc, he])), h ⟨a, false, true⟩ (by simp [eacc])]
+  | idx2 a i j ihi ihj =>
+    simp [okX, ihi (fun ev he => h ev (by simp [eacc, he])), ihj (fun ev he => h ev (by simp [eacc, he])),
+      h ⟨a, false, true⟩ (by simp [eacc])]
+  | un op e ih => simpa [okX] using ih (fun ev he => h ev (by simpa [eacc] using he))
+  | bin op a b iha ihb =>
+    simp [okX, iha (fun ev he => h ev (by simp [eacc, he])), ihb (fun ev he => h ev (by simp [eacc, he]))]
 
 theorem chk_of_reads {K : List Nat} (s : RStmt) :
-    ∀ D, (∀ ev ∈ sacc s, ev.write = false → ev.var ∈ K) → (chk K s D).isSome = true := by
+    ∀ S, (∀ ev ∈ sacc s, ev.write = false → ev.var ∈ K) → (chk K s S).isSome = true := by
   induction s with
-  | skip => intro D _; simp [chk]
+  | skip => intro S _; simp [chk]
   | seq a b iha ihb =>
-    intro D h
-    obtain ⟨D1, hD1⟩ := Option.isSome_iff_exists.mp (iha D (fun ev he => h ev (by simp [sacc, he])))
-    simp only [chk, hD1, Option.bind_some]
-    exact ihb D1 (fun ev he => h ev (by simp [sacc, he]))
+    intro S h
+    obtain ⟨S1, hS1⟩ := Option.isSome_iff_exists.mp (iha S (fun ev he => h ev (by simp [sacc, he])))
+    simp only [chk, hS1, Option.bind_some]
+    exact ihb S1 (fun ev he => h ev (by simp [sacc, he]))
   | assign x e =>
-    intro D h
-    have := okE_of_reads (K := K) (D := D) (e := e)
+    intro S h
+    have := okX_of_reads (K := K) (S := S) (e := e)
       (fun ev he => h ev (by simp [sacc, he]) (eacc_read ev he))
     simp [chk, this]
   | store1 a i e =>
-    intro D h
-    have h1 := okE_of_reads (K := K) (D := D) (e := e)
+    intro S h
+    have h1 := okX_of_reads (K := K) (S := S) (e := e)
       (fun ev he => h ev (by simp [sacc, he]) (eacc_read ev he))
-    have h2 := okE_of_reads (K := K) (D := D) (e := i)
+    have h2 := okX_of_reads (K := K) (S := S) (e := i)
       (fun ev he => h ev (by simp [sacc, he]) (eacc_read ev he))
     simp [chk, h1, h2]
   | store2 a i j e =>
-    intro D h
-    have h1 := okE_of_reads (K := K) (D := D) (e := e)
+    intro S h
+    have h1 := okX_of_reads (K := K) (S := S) (e := e)
       (fun ev he => h ev (by simp [sacc, he]) (eacc_read ev he))
-    have h2 := okE_of_reads (K := K) (D := D) (e := i)
+    have h2 := okX_of_reads (K := K) (S := S) (e := i)
       (fun ev he => h ev (by simp [sacc, he]) (eacc_read ev he))
-    have h3 := okE_of_reads (K := K) (D := D) (e := j)
+    have h3 := okX_of_reads (K := K) (S := S) (e := j)
       (fun ev he => h ev (by simp [sacc, he]) (eacc_read ev he))
     simp [chk, h1, h2, h3]
   | ite c t f iht ihf =>
-    intro D h
-    have h1 := okE_of_reads (K := K) (D := D) (e := c)
+    intro S h
+    have h1 := okX_of_reads (K := K) (S := S) (e := c)
       (fun ev he => h ev (by simp [sacc, he]) (eacc_read ev he))
-    have h2 := iht D (fun ev he => h ev (by simp [sacc, he]))
-    have h3 := ihf D (fun ev he => h ev (by simp [sacc, he]))
-    simp [chk, h1, h2, h3]
+    obtain ⟨St, ht⟩ := Option.isSome_iff_exists.mp (iht S (fun ev he => h ev (by simp [sacc, he])))
+    obtain ⟨Sf, hf⟩ := Option.isSome_iff_exists.mp (ihf S (fun ev he => h ev (by simp [sacc, he])))
+    simp [chk, h1, ht, hf]
   | loop v lo hi st b ih =>
-    intro D h
-    have h1 := okE_of_reads (K := K) (D := D) (e := lo)
+    intro S h
+    have h1 := okX_of_reads (K := K) (S := S) (e := lo)
       (fun ev he => h ev (by simp [sacc, he]) (eacc_read ev he))
-    have h2 := okE_of_reads (K := K) (D := D) (e := hi)
+    have h2 := okX_of_reads (K := K) (S := S) (e := hi)
       (fun ev he => h ev (by simp [sacc, he]) (eacc_read ev he))
-    have h3 := okE_of_reads (K := K) (D := D) (e := st)
+    have h3 := okX_of_reads (K := K) (S := S) (e := st)
       (fun ev he => h ev (by simp [sacc, he]) (eacc_read ev he))
-    have h4 := ih (v :: D) (fun ev he => h ev (by simp [sacc, he]))
-    simp [chk, h1, h2, h3, h4]
+    obtain ⟨Sb, hb⟩ := Option.isSome_iff_exists.mp
+      (ih (v :: S.1, killA S.2 (v :: rwvars b)) (fun ev he => h ev (by simp [sacc, he])))
+    have hs : subA (killA S.2 (v :: rwvars b)) Sb.2 = true := by
+      simp only [subA, List.all_eq_true, List.contains_iff_mem]
+      intro p hp
+      exact chk_survive b _ Sb hb p hp (fun w hw => (mem_killA.mp hp).2 w (List.mem_cons_of_mem _ hw))
+    simp [chk, h1, h2, h3, hb, hs]
   | whileDo c b ih =>
-    intro D h
-    have h1 := okE_of_reads (K := K) (D := D) (e := c)
+    intro S h
+    have h1 := okX_of_reads (K := K) (S := (S.1, killA S.2 (rwvars b))) (e := c)
       (fun ev he => h ev (by simp [sacc, he]) (eacc_read ev he))
-    have h2 := ih D (fun ev he => h ev (by simp [sacc, he]))
-    simp [chk, h1, h2]
+    obtain ⟨Sb, hb⟩ := Option.isSome_iff_exists.mp
+      (ih (S.1, killA S.2 (rwvars b)) (fun ev he => h ev (by simp [sacc, he])))
+    have hs : subA (killA S.2 (rwvars b)) Sb.2 = true := by
+      simp only [subA, List.all_eq_true, List.contains_iff_mem]
+      intro p hp
+      exact chk_survive b _ Sb hb p hp (fun w hw => (mem_killA.mp hp).2 w hw)
+    simp [chk, h1, hb, hs]
 
 end RegionData
